@@ -42,7 +42,7 @@ ASSUMED = [
     "the re-parser is html5lib with its listed tree-construction / tokenizer deviations in BOTH configurations",
     "MC: strip_whitespace, alphabetical_attributes, inject_meta_charset and encodings are outside the model-level bound "
     "(they are inside the recorded traces)",
-    "the extended allow-list configuration (default lists + html noscript, html style, svg style) is reachable only through "
+    "the extended allow-list configuration (default lists + html noscript, svg style) is reachable only through "
     "sanitizer.Filter(...) given to HTMLSerializer, not through HTMLSerializer(sanitize=True)",
 ]
 RAWNAMES = frozenset(["style", "script", "xmp", "iframe", "noembed", "noframes", "noscript"])   # what in_cdata reacts to
@@ -427,7 +427,7 @@ PIECES = ["<svg>", "<math>", "<style>", "<title>", "<textarea>", "<noscript>", "
           "<textarea>\n", "<pre>\n\n", "<listing>\n", "&#13;", "\x00", "\r\n", "\r", "\x0c", "&amp;", "&", "&#x26;lt;", "&amp;#60;b&amp;#62;", "&lt;!--",
           "--&gt;", "&lt;/textarea&gt;&lt;img src=x onerror=y&gt;", "&lt;/title&gt;&lt;img src=x onerror=y&gt;", "&lt;/style&gt;&lt;img src=x onerror=y&gt;",
           "&lt;/noscript&gt;&lt;img src=x onerror=y&gt;", "&lt;/desc&gt;&lt;img src=x onerror=y&gt;", "&lt;![CDATA[&lt;img src=x onerror=y&gt;]]&gt;",
-          "<![CDATA[<img src=x onerror=y>]]>", "<![CDATA[</style><img src=x onerror=y>]]>", "<!--><img src=x onerror=y>-->", "<!--x--!><img>",
+          "<![CDATA[<img src=x onerror=y>]]>", "<![CDATA[</style><img src=x onerror=y>]]>", "<!--><img src=x onerror=y>-->", "<!--x--!><img>", "<!--[if IE]><img src=x onerror=y><![endif]-->", "<svg><!--[if gte mso 9]>x<![endif]-->",
           "<!-- --!>", "<?pi <img src=x onerror=y>?>", "<!x>", "</ x>", "</>", "<", "<a", "<a b='", "&#", "é", "\U0001f600", "�"]
 DOCTYPES = ["<!DOCTYPE html>", "<!DOCTYPE html PUBLIC '\"><img src=x onerror=y>'>", "<!DOCTYPE html PUBLIC \"'><img src=x onerror=y>\">",
             "<!DOCTYPE html SYSTEM \"'><img src=x onerror=y>\">", "<!DOCTYPE html SYSTEM '\"><img src=x onerror=y>'>",
@@ -438,7 +438,7 @@ WITNESSES = [  # (input, first-parse container) exhibiting each listed finding
     ("<svg><foreignObject><input>", "div"), ("<svg></p><desc>", "div"), ("<svg><a xlink:show=new>", "div"),
     ("<math><annotation-xml encoding=text/html><a href=x>", None), ("<math><mi><mglyph><mi>x", "div"), ("<svg></br><title>x", None)]
 EXT_WITNESSES = [("<noscript>&lt;img src=x onerror=y&gt;</noscript>", "div", False), ("<svg><style>&lt;img src=x onerror=y&gt;", "div", False),
-                 ("<noscript><img src=x onerror=y></noscript>", "div", True), ("<svg><foreignObject><style><img src=x onerror=y></style>", "div", False)]
+                 ("<noscript><img src=x onerror=y></noscript>", "div", True), ("<noscript><p>&lt;x-y&gt;<img src=x onerror=y>", "div", False)]
 
 
 def mxss_doc(rng):
@@ -496,10 +496,10 @@ def consts(defects, parser_defects):
             % (",".join('"%s"' % d for d in defects), ",".join('"%s"' % d for d in parser_defects)))
 
 
-def mc_cfg(maxfrags, alphabet, lists, export, defects, parser_defects):
-    return ("INIT Init\nNEXT Next\nCHECK_DEADLOCK FALSE\nINVARIANT ThmSafeAndCorresponds\nINVARIANT ThmExport\n"
-            'CONSTANT MaxFrags = %d\nCONSTANT Alphabet = "%s"\nCONSTANT Lists = "%s"\nCONSTANT Export = %s\n'
-            % (maxfrags, alphabet, lists, "TRUE" if export else "FALSE") + consts(defects, parser_defects))
+def mc_cfg(export, defects, parser_defects):
+    return ("INIT Init\nNEXT Next\nCHECK_DEADLOCK FALSE\nINVARIANT ThmSafeAndCorresponds\nINVARIANT ThmIntendedOnlyEscapesMore\n"
+            "INVARIANT ThmExport\nCONSTANT Export = %s\n"
+            % ("TRUE" if export else "FALSE") + consts(defects, parser_defects))
 
 
 def defect_sets(ctx):
@@ -529,12 +529,13 @@ def _replay(rec):
         o = cfg["opts"][entry["o"] - 1]
         cx1 = dec(f["cx"])
         kw = mxssgen.serializer_kwargs(o)
-        fkw = mxssgen.filter_kwargs(_MC["lists"])
+        lists = cfg["runs"][rec["run"] - 1]["lists"]
+        fkw = mxssgen.filter_kwargs(lists)
         tb = "dom" if (cx1 is None or (len(src) + pi) % 2) else "etree"
         try:
             tree = first_parse(src, cx1, f["scr"], tb)
             out, passed = chain(tree, tb, kw, fkw)
-            if _MC["lists"] == "default":
+            if lists == "default":
                 seen = observe(first_parse(src, cx1, f["scr"], tb), tb, kw)
                 if seen != out:
                     bad.append((pi, "HTMLSerializer(sanitize=True) output differs from the hand-made filter chain", seen, out))
@@ -560,52 +561,58 @@ def _replay(rec):
 
 
 def run_mc(ctx, plan, parser, faithful, listed_keys):
-    cfg = mxssgen.write_cfg(os.path.join(core.VERIF, "out", ctx.pid, "mxss_cfg.json"))
-    env = {"MXSS_CFG": os.path.join(core.VERIF, "out", ctx.pid, "mxss_cfg.json")}
+    """plan: [(alphabet, depth, lists, mode)], mode "intended" = theorem on KnownDefects = {} (no export), "faithful" = the listed
+    deviations (theorem on the code with the C10-relevant ones repaired; exported and replayed).  One TLC run per mode."""
+    d = os.path.join(core.VERIF, "out", ctx.pid)
     failing_srcs = []
     model_level = {}
     shown = False
-    for alphabet, depth, lists, pure in plan:
-        tag = "mc-%s-%d-%s" % (alphabet, depth, lists)
-        if pure:
-            # the intended design proper (no deviation of any module): theorem only
-            r = ctx.tlc("MC_Mxss", mc_cfg(depth, alphabet, lists, False, [], parser), tag + "-intended", expect_ok=False, env=env,
-                        workers=8, keep_records=False)
-            if r.violated or r.error:
-                ctx.violation("theorem %s fails on the intended specification (%s)" % (r.violated or r.error, tag), {"tlc": r.stdout_path})
-                return failing_srcs
-        r = ctx.tlc("MC_Mxss", mc_cfg(depth, alphabet, lists, True, faithful, parser), tag + "-faithful", expect_ok=False, env=env,
-                    workers=8, keep_records=False)
+    runs_i = [(a, n, l) for a, n, l, m in plan if m == "intended"]
+    runs_f = [(a, n, l) for a, n, l, m in plan if m == "faithful"]
+    if runs_i:
+        path = os.path.join(d, "mxss_cfg_intended.json")
+        mxssgen.write_cfg(path, runs_i)
+        r = ctx.tlc("MC_Mxss", mc_cfg(False, [], parser), "mc-intended", expect_ok=False, env={"MXSS_CFG": path}, workers=8, keep_records=False)
         if r.violated or r.error:
-            ctx.violation("theorem %s fails on the code with the C10-relevant deviations repaired (%s)" % (r.violated or r.error, tag),
-                          {"tlc": r.stdout_path})
+            ctx.violation("theorem %s fails on the intended specification %s" % (r.violated or r.error, runs_i), {"tlc": r.stdout_path})
             return failing_srcs
-        _MC.update(cfg=cfg, lists=lists, neutral=listed_keys)
-        for batch in core.batched(tlc.iter_records(r.stdout_path), 20000):
-            res = core.parallel(_replay, batch, chunk=200)
-            for rec, bad in zip(batch, res):
-                ctx.traces += 1
-                src = core.ucs(rec["src"])
-                fails = False
-                for run in rec["runs"]:
-                    if not run["isame"]:
-                        ctx.nontriv(("mc", lists, src))
-                    for j in run["rp"]:
-                        if j["cl"]:
-                            fails = True
-                            for c in j["cl"]:
-                                model_level.setdefault(show_clause(c), src)
-                if fails and lists == "default":
-                    failing_srcs.append(src)
-                for pi, what, got, exp in bad:
-                    ctx.violation("real pipeline differs from the code-faithful specification: %s [%s, plan entry %d]" % (what, tag, pi + 1),
-                                  {"kind": "replay", "src": src, "lists": lists, "plan": pi, "got": got, "expected": exp})
-            if not shown and batch:
-                m = min(batch, key=lambda x: hashlib.md5(json.dumps(x["src"]).encode()).hexdigest())
-                ctx.sample({"spec_to_code": core.ucs(m["src"]), "expected_output": core.ucs(m["runs"][1]["out"]),
-                            "expected_elements_reparsed_in_div": len(m["runs"][1]["rp"][1]["F"])})
-                shown = True
-    ctx.notes["model_level_failures_of_the_code_faithful_pipeline"] = dict(sorted(model_level.items())[:40])
+    path = os.path.join(d, "mxss_cfg_faithful.json")
+    cfg = mxssgen.write_cfg(path, runs_f)
+    r = ctx.tlc("MC_Mxss", mc_cfg(True, faithful, parser), "mc-faithful", expect_ok=False, env={"MXSS_CFG": path}, workers=8, keep_records=False)
+    if r.violated or r.error:
+        ctx.violation("theorem %s fails on the code with the C10-relevant deviations repaired %s" % (r.violated or r.error, runs_f),
+                      {"tlc": r.stdout_path})
+        return failing_srcs
+    _MC.update(cfg=cfg, neutral=listed_keys)
+    for batch in core.batched(tlc.iter_records(r.stdout_path), 20000):
+        res = core.parallel(_replay, batch, chunk=200)
+        for rec, bad in zip(batch, res):
+            ctx.traces += 1
+            src = core.ucs(rec["src"])
+            lists = cfg["runs"][rec["run"] - 1]["lists"]
+            fails = False
+            for run in rec["runs"]:
+                if not run["isame"]:
+                    ctx.nontriv(("mc", lists, src))
+                for j in run["rp"]:
+                    if j["cl"]:
+                        fails = True
+                        for c in j["cl"]:
+                            k = lists + ": " + show_clause(c)
+                            if k not in model_level or (len(src), src) < (len(model_level[k]), model_level[k]):
+                                model_level[k] = src
+            if fails and lists == "default":
+                failing_srcs.append(src)
+            for pi, what, got, exp in bad:
+                ctx.violation("real pipeline differs from the code-faithful specification: %s [%s, plan entry %d]"
+                              % (what, cfg["runs"][rec["run"] - 1], pi + 1),
+                              {"kind": "replay", "src": src, "lists": lists, "plan": pi, "got": got, "expected": exp})
+        if not shown and batch:
+            m = min(batch, key=lambda x: hashlib.md5(json.dumps(x["src"]).encode()).hexdigest())
+            ctx.sample({"spec_to_code": core.ucs(m["src"]), "expected_output": core.ucs(m["runs"][1]["out"]),
+                        "expected_elements_reparsed_in_div": len(m["runs"][1]["rp"][1]["F"])})
+            shown = True
+    ctx.notes["model_level_failures_of_the_code_faithful_pipeline"] = dict(sorted(model_level.items())[:60])
     return failing_srcs
 
 
@@ -680,13 +687,15 @@ def run(ctx):
     sergen.main()
     parser, faithful, listed_keys = defect_sets(ctx)
     q = ctx.quick
-    # (alphabet, max fragments, allow-lists, also run the pure intended configuration)
-    plan = ([("all", 2, "default", True), ("deep", 3, "default", False), ("core", 2, "extended", False)] if q else
-            [("all", 2, "default", True), ("core", 3, "default", True), ("deep", 4, "default", False), ("all", 2, "extended", True),
-             ("core", 3, "extended", False)])
+    # (alphabet, max fragments, allow-lists, configuration)
+    plan = ([("core", 2, "default", "intended"), ("all", 2, "default", "faithful"), ("deep", 3, "default", "faithful"),
+             ("core", 2, "extended", "faithful")] if q else
+            [("all", 2, "default", "intended"), ("deep", 3, "default", "intended"), ("all", 2, "extended", "intended"),
+             ("all", 2, "default", "faithful"), ("core", 3, "default", "faithful"), ("deep", 4, "default", "faithful"),
+             ("all", 2, "extended", "faithful"), ("deep", 3, "extended", "faithful")])
     ctx.assumptions = list(ASSUMED)
     ctx.constants = {
-        "MC plan (alphabet, max fragments, allow-lists, pure intended run too)": plan,
+        "MC plan (alphabet, max fragments, allow-lists, configuration)": plan,
         "alphabets": {"all": mxssgen.ALL, "core": mxssgen.CORE, "deep": mxssgen.DEEP},
         "per state": "first parse {document, fragment(div), fragment(div) scripting} x 3 option vectors x re-parse {document, div, div "
                      "scripting, select, table, textarea}: the %d (first, options, re-parses) entries of mxssgen.PLAN" % len(mxssgen.PLAN),
@@ -744,7 +753,7 @@ def replay(case):
     parser, faithful, listed_keys = defect_sets(ctx)
     if c.get("kind") == "replay":
         print("replay: spec -> code disagreement on %r (%s, plan entry %d): see 'got' / 'expected' in the file" % (c["src"], c["lists"], c["plan"] + 1))
-        cfg = mxssgen.write_cfg(os.path.join(core.VERIF, "out", "C10", "mxss_cfg.json"))
+        cfg = mxssgen.write_cfg(os.path.join(core.VERIF, "out", "C10", "mxss_cfg_replay.json"))
         e = cfg["plan"][c["plan"]]
         f = cfg["firsts"][e["f"] - 1]
         tree = first_parse(c["src"], dec(f["cx"]), f["scr"], "dom")
